@@ -183,7 +183,7 @@ Proof. exact wkeep_lower_spec. Qed.
 
 (* ==================================================================================
    Part 2: crab::domains::wrapped_interval<z_number>.  Model Scalar/WrappedItv.v (mirror of
-   wrapped_interval_impl.hpp and lib/wrapped_interval.cpp with the repairs fixes/wrapint-5..8),
+   wrapped_interval_impl.hpp and lib/wrapped_interval.cpp with the repairs fixes/wrapint-5..9),
    proofs Scalar/WrappedItvSound.v.
      wfw w x     : x is a well-formed wrapint of bitwidth w
      iwf w i     : i is bottom, top, or has two bounds of bitwidth w
@@ -205,6 +205,10 @@ Proof. exact singleton_sound. Qed.
 Theorem C13_wv_mk_winterval : forall n w r, mk_winterval1 n w = Some r ->
   forall x, of_z n w = Some x -> gamma w r x.
 Proof. exact mk_winterval1_sound. Qed.
+
+Theorem C13_wv_mk_winterval_range : forall lb ub w r, mk_winterval2 lb ub w = Some r ->
+  forall z x, lb <= z <= ub -> of_z z w = Some x -> gamma w r x.
+Proof. exact mk_winterval2_sound. Qed.
 
 (* ---- order and lattice operations *)
 Theorem C13_wv_leq : forall w a x v, iwf w a -> iwf w x -> wi_leq a x = true -> gamma w a v -> gamma w x v.
@@ -372,3 +376,4 @@ Print Assumptions C13_wv_lower_half_line_unsigned.
 Print Assumptions C13_wv_upper_half_line_signed.
 Print Assumptions C13_wv_upper_half_line_unsigned.
 Print Assumptions C13_wv_trim_interval.
+Print Assumptions C13_wv_mk_winterval_range.
